@@ -114,3 +114,27 @@ func verifFixRand() func() {
 	rand.Reader = verifrt.RandReader{}
 	return func() { rand.Reader = old }
 }
+
+// Verif_C02_encrypted_programs: the producer with a user password, one
+// version per cipher (RC4-40, RC4-128, AES-128, AES-256).  String payloads
+// are concrete (AES of symbolic data is not encodable): the empty string and
+// lengths around the AES block size.
+func Verif_C02_encrypted_programs() {
+	defer verifFixRand()()
+	old := verifConcreteStrings
+	verifConcreteStrings = []string{"", "a(b", "fifteen bytes..", "sixteen bytes..!", "seventeen bytes.."}
+	defer func() { verifConcreteStrings = old }()
+	var cfgs []verifConfig
+	for _, v := range []Version{V1_1, V1_4, V1_6, V2_0} {
+		cfgs = append(cfgs, verifConfig{v, false, false})
+		if verifrt.Tier() > 0 {
+			cfgs = append(cfgs, verifConfig{v, true, true})
+		}
+	}
+	p := verifProfile{ops: 1 + verifrt.Tier(), streams: true, compressed: true, symbolic: false, password: "pw", simple: true, noBig: true, configs: cfgs}
+	doc := verifProduce(p)
+	if doc == nil {
+		return
+	}
+	verifCheckRead(doc, &ReaderOptions{Password: "pw"})
+}
